@@ -113,7 +113,9 @@ CLAIMS = {
               "worker counts, completion orders and prior states of the object: the parallel run is a permutation of the sequential "
               "run - per-file and cross-file findings alike (parallel_eq_sequential) - with the same exit code and the same state left "
               "behind; below the threshold the parallel entry point is the sequential one; to_dict/from_dict round-trips every "
-              "field. The pre-repair pooled branch (finding F07a, repaired by b158f57) is kept as lintFilesParallelOld with its witness. "
+              "field, is injective, carries whole batches unchanged and rejects any other severity (the transfer-format model is itself run "
+              "against Violation.to_dict/from_dict on produced, reordered, truncated and re-labelled records); the worker count is positive, "
+              "bounded by the default and the CPU count, and an explicit --max-workers is taken as given. The pre-repair pooled branch (finding F07a, repaired by b158f57) is kept as lintFilesParallelOld with its witness. "
               "The model is run on the per-file and finalize results observed on the real tool and must give the multiset of the real "
               "pooled run for forced completion orders; CLI sequential vs --parallel compared field by field."),
         note=("Real OS scheduling, pickling and process start-up are sampled, not modelled; completion orders are forced after all "
@@ -140,7 +142,9 @@ CLAIMS = {
         text=("Kernel-checked theorems over the orchestrator model, for all rule plug-ins: a run's per-file part is the in-order union of "
               "what each file reports alone and the rest is finalize on exactly the run's files; for per-file rules a directory / a file "
               "list reports exactly the union; Linter.lint and the CLI coincide for single files and directories; several CLI targets "
-              "are one pass over the de-duplicated union; for every linter command and every rule id (regenerated tables) the CLI filter "
+              "are one pass over the de-duplicated union (_merge_targets loses no file, lints none twice, keeps first positions, is idempotent; "
+              "a file named explicitly and inside a directory argument is reported once; repeated targets change nothing for any rule "
+              "set); for every linter command and every rule id (regenerated tables) the CLI filter "
               "and Linter.lint(rules=[linter]) pass the same ids. Model predictions (directory, subsets, mixed arguments) are compared "
               "with the real tool on generated trees; CLI vs API compared field by field. Three genuine defects were repaired "
               "(fix: 16a9498, 6a05b5c, 5e895cf)."),
